@@ -289,6 +289,8 @@ def check(src, rep):
     tg = parse_targets(M, MOD)
     if list(routes(frame, bodyg)) and tg == {"decode_frame_content": "LlcPdu", "decode_notification_body": "NotificationBody"}:
         rep.ok("R5", "frame = body", "LlcPdu wraps the same NotificationBody grammar; both entry points share the item normaliser")
+    elif None in tg.values() and list(routes(frame, bodyg)):
+        rep.undecide(f"R5 cannot see which grammar the entry points parse their input with ({tg})")
     else:
         rep.violation("R5", "kamstrup", "frame-body", "frame and bare-body decoding do not share grammar", file, 1)
     from sa.decoders import octet_string_text_finding
